@@ -182,10 +182,8 @@ def binding_a(binp, desc, sc, v, nsim, depth):
                     f.write(json.dumps(line) + "\n")
                     n += 1
                 last.append(n - 1)
-        rr = lib.run_report([binp, "-mode", "replay", "-in", cp])
+        rr = lib.run_report([binp, "-mode", "replay", "-in", cp, "-maxmm", "1000000"])
         got = {(x["case"], x["signature"]) for x in rr["mismatches"]}
-        if rr["extra"].get("mismatches_total"):
-            raise lib.Inconclusive("A: too many disagreements to confirm in one pass")
         for mm, idx in zip(rep["mismatches"], last):
             if (idx, mm["signature"]) not in got:
                 raise lib.Inconclusive("A: disagreement did not reproduce in a fresh process: %s" % mm["input"]["sql"])
